@@ -1333,6 +1333,27 @@ fn window_is_wide(ee: &EeSpec) -> bool {
     ee.nb <= ymd(2021, 1, 1) && ee.na >= ymd(2044, 1, 1)
 }
 
+/// The clock-based entry points (`validate`) are `validate_at(Time::now())`:
+/// asked whenever both ends of the EE window are more than a day away from
+/// the present, they must give the verdict `validate_at(now)` gives.
+fn far_from_now(ee: &EeSpec) -> bool {
+    let now = chrono::Utc::now().timestamp();
+    (ee.nb - now).abs() > 86_400 && (ee.na - now).abs() > 86_400
+}
+
+fn clock_route(what: &str, ee: &EeSpec, by_clock: Result<(), String>, at_now: Result<(), String>, obs: &mut Obs) -> CheckResult {
+    if !far_from_now(ee) {
+        return Ok(());
+    }
+    obs.label("clock-route");
+    ensure_sig!(
+        by_clock.is_ok() == at_now.is_ok(),
+        "c02:routes-disagree",
+        "{}: validate() (evaluation time = the clock) says {:?}, validate_at(Time::now()) says {:?}", what, by_clock, at_now
+    );
+    Ok(())
+}
+
 fn compare(
     what: &str,
     expect: bool,
@@ -1495,6 +1516,13 @@ fn run_generic(c: &Generic, obs: &mut Obs) -> CheckResult {
                 pieces.as_slice() == held.as_ref() && obj.content().len() == held.len(),
                 "content().iter() / len() / to_bytes() of the decoded object disagree"
             );
+            clock_route(
+                "SignedObject",
+                &c.ee,
+                obj.clone().validate(issuer, c.strict).map(|_| ()).map_err(|e| e.to_string()),
+                obj.clone().validate_at(issuer, c.strict, Time::now()).map(|_| ()).map_err(|e| e.to_string()),
+                obs,
+            )?;
             if via_process {
                 obj.process(issuer, c.strict, crl.callback()).map(|(_, out)| vec![held, out]).map_err(|e| e.to_string())
             } else {
@@ -2026,7 +2054,16 @@ fn run_mft(c: &MftCase, obs: &mut Obs) -> CheckResult {
     let issuer = issuer_for(&c.ee, c.tamper);
     let got: Result<(), String> = match Manifest::decode(bytes.as_slice(), c.strict) {
         Err(e) => Err(format!("decode: {}", e)),
-        Ok(m) => match m.validate_at(issuer, c.strict, lib_time(t)) {
+        Ok(m) => match {
+            clock_route(
+                "Manifest",
+                &c.ee,
+                m.clone().validate(issuer, c.strict).map(|_| ()).map_err(|e| e.to_string()),
+                m.clone().validate_at(issuer, c.strict, Time::now()).map(|_| ()).map_err(|e| e.to_string()),
+                obs,
+            )?;
+            m.validate_at(issuer, c.strict, lib_time(t))
+        } {
             Err(e) => Err(e.to_string()),
             Ok((_, content)) => {
                 let got: Vec<(Vec<u8>, Vec<u8>)> = content.iter().map(|f| { let (n, h) = f.into_pair(); (n.to_vec(), h.to_vec()) }).collect();
